@@ -65,6 +65,9 @@ pub fn gen_long_history(check: &str, seed: u64, tier: Tier) -> Run {
         run.set("nodewise", 1);
     }
     run.set("oracle_seed", (f.next() >> 1) as i64);
+    if check == "C13" {
+        run.set("analysis", Rng::stream(seed, "analysis").chance(1, 3) as i64);
+    }
     run
 }
 
@@ -89,9 +92,21 @@ impl Check for HistoryCheck {
     }
 
     fn exec(&self, run: &Run) -> Outcome {
+        // a third of the runs carry the simulator's analysis (min size / depth / height): worklist
+        // entries then come in two kinds (analysis-only and full) and data changes re-queue parents
+        if run.get("analysis") != 0 {
+            self.exec_with(run, EGraph::new(crate::analysis::SimAn { p: 3, modify: false }))
+        } else {
+            self.exec_with(run, EGraph::new(()))
+        }
+    }
+}
+
+impl HistoryCheck {
+    fn exec_with<N: Analysis<LS>>(&self, run: &Run, eg: EGraph<LS, N>) -> Outcome {
         let mut out = Outcome::default();
         seam::apply(&run.knobs());
-        let mut s: Sess<LS, ()> = Sess::new(EGraph::new(()), run.get("naming") as u32);
+        let mut s: Sess<LS, N> = Sess::new(eg, run.get("naming") as u32);
         let mut orng = Rng::stream(run.get("oracle_seed") as u64, "oracle-sampling");
         // recorded history
         let mut equal_pairs: Vec<(AppliedId, AppliedId, usize, String)> = Vec::new();
@@ -313,5 +328,5 @@ impl Check for HistoryCheck {
         out.log_hash = s.log_hash;
         out.nontrivial = out.discarded.is_none() && changes >= 2 && rechecked_after_change;
         out
-    }
+        }
 }
